@@ -2,6 +2,7 @@ package sim
 
 import (
 	"fmt"
+	"sort"
 	"strings"
 
 	"storj.io/drpc/verifsim"
@@ -105,9 +106,20 @@ func runE1(spec RunSpec, ch *Choices) *RunResult {
 
 	// phase 3: probe
 	if x.prog.Probe && x.conn != nil {
-		if !clientsDone {
+		handlersDone := true
+		for _, r := range x.recs {
+			if r.HStarted && !r.HReturned {
+				handlersDone = false
+			}
+		}
+		if clientsDone && !handlersDone {
+			// C06 precondition not met: an earlier rpc has not ended on the server side
+			res.probe("probe_skipped_handler_running")
+			clientsDone = false
+			x.viol("handler-stuck", "handler still running at quiescence although its client has ended: "+x.keyState(), fmt.Sprint(x.blockedCalls(), x.libCensus()))
+		} else if !clientsDone {
 			res.probe("probe_skipped_client_blocked")
-			if faultFree && connAlive {
+			if faultFree && connAlive && handlersDone {
 				x.viol("client-stuck", "client call blocked for ever on a healthy connection: "+x.stuckSummary(), fmt.Sprint(x.blockedCalls(), x.libCensus()))
 			}
 		} else {
@@ -182,8 +194,26 @@ func (x *e1) checkProbe() {
 		x.viol("probe", "probe rpc blocked for ever although the connection reports closed", fmt.Sprint(x.blockedCalls(), x.libCensus()))
 		return
 	}
-	x.viol("probe", "probe rpc blocked for ever on a connection that does not report closed; library state: "+strings.Join(x.libCensus(), " "),
+	x.viol("probe", "probe rpc blocked for ever on a connection that does not report closed; "+x.keyState(),
 		fmt.Sprint(x.blockedCalls(), x.libCensus()))
+}
+
+// keyState summarises where the goroutines that matter for progress are parked.
+func (x *e1) keyState() string {
+	want := map[string]bool{"srv.manageReader": true, "srv.serveone": true, "cli.manageReader": true}
+	var parts []string
+	for _, c := range x.libCensus() {
+		if i := strings.IndexByte(c, '@'); i > 0 && want[c[:i]] {
+			parts = append(parts, c)
+		}
+	}
+	for _, c := range x.blockedCalls() {
+		if strings.HasPrefix(c.API, "h.") {
+			parts = append(parts, "handler@"+apiVerb(c.API))
+		}
+	}
+	sort.Strings(parts)
+	return strings.Join(parts, " ")
 }
 
 // checkLeaks: after teardown every task must have exited (C12).
@@ -193,7 +223,7 @@ func (x *e1) checkLeaks() {
 		if t.State == verifsim.StExited || t.State == verifsim.StPending {
 			continue
 		}
-		left = append(left, t.Name+"@"+whereClass(t.Label))
+		left = append(left, x.roleOfTask(t.Name)+"@"+whereClass(t.Label))
 	}
 	if len(left) > 0 {
 		x.viol("close-leak", "tasks left after closing client connection and cancelling the server: "+strings.Join(stripNumsAll(left), " "), strings.Join(left, " "))
